@@ -75,6 +75,16 @@ CLAIMED = {
             'atomicity of write_status and --cluster mode are outside; the initial "unfinished" status and the absence of other '
             'status writes before the multiprocess tail are assumed (the latter checked syntactically); A4 for sort/index/merge.',
             '5/C20'),
+    'C19': ('Proof of HandleLimiter.write against a ghost file system for every sequence of failing and succeeding open() '
+            'calls (the retry loop is unrolled completely with the unwinding bound checked): the record is appended to its own '
+            'file after the earlier content (first write starts the file), no other file changes, the file is remembered as '
+            'written, every registered handle stays usable, pruning included; an exception escapes only if an open failed '
+            'while no other handle was open.',
+            'Ghost file system semantics of open/gzip.open/write/close are assumed (w truncates, a preserves, a failing open has '
+            'no effect); validity of multi-member gzip and real EMFILE behaviour: A4; the number of other open handles is 0..2 '
+            '(case split); prune/close postconditions verified for 0..4 handles (bounded, reported separately); FastqHandle.write '
+            'per-cell routing: see C01.',
+            '5/C19, appendix B.4'),
 }
 
 NOT_YET = 'check not built yet (framework under construction; see DESIGN.md section 5)'
